@@ -452,6 +452,23 @@ func (mux *ServeMux) ErrorReports() <-chan *ErrorReport {
 // in the incoming message. If the special "ALL" handler is registered
 // it is used as a catch-all. Otherwise an ErrorReport is sent out.
 func (mux *ServeMux) ServeDIAM(c Conn, m *Message) {
+	// The lock is only held to find the handler, not while it runs: a
+	// handler that blocks must not delay a registration nor, through the
+	// waiting registration, the dispatch of messages of other connections.
+	h, err := mux.handler(m)
+	if err != nil {
+		mux.Error(&ErrorReport{
+			Conn:    c,
+			Message: m,
+			Error:   err,
+		})
+		return
+	}
+	h.ServeDIAM(c, m)
+}
+
+// handler returns the handler to use for the given message.
+func (mux *ServeMux) handler(m *Message) (Handler, error) {
 	mux.mu.RLock()
 	defer mux.mu.RUnlock()
 	dcmd, err := m.Dictionary().FindCommand(
@@ -460,8 +477,7 @@ func (mux *ServeMux) ServeDIAM(c Conn, m *Message) {
 
 	if err != nil {
 		// Try the catch-all.
-		mux.serveIdx(ALL_CMD_INDEX, c, m)
-		return
+		return mux.handlerIdx(ALL_CMD_INDEX)
 	}
 
 	idx := CommandIndex{
@@ -470,8 +486,7 @@ func (mux *ServeMux) ServeDIAM(c Conn, m *Message) {
 		m.Header.CommandFlags&RequestFlag == RequestFlag}
 	_, ok := mux.idxMap[idx]
 	if ok {
-		mux.serveIdx(idx, c, m)
-		return
+		return mux.handlerIdx(idx)
 	}
 
 	var cmd string
@@ -480,45 +495,33 @@ func (mux *ServeMux) ServeDIAM(c Conn, m *Message) {
 	} else {
 		cmd = dcmd.Short + "A"
 	}
-	mux.serve(cmd, c, m)
+	return mux.handlerName(cmd)
 }
 
-func (mux *ServeMux) serveIdx(cmd CommandIndex, c Conn, m *Message) {
+func (mux *ServeMux) handlerIdx(cmd CommandIndex) (Handler, error) {
 	entry, ok := mux.idxMap[cmd]
 	if ok {
-		entry.h.ServeDIAM(c, m)
-		return
+		return entry.h, nil
 	}
 	// Try catch-all.
 	entry, ok = mux.idxMap[ALL_CMD_INDEX]
 	if ok {
-		entry.h.ServeDIAM(c, m)
-		return
+		return entry.h, nil
 	}
-	mux.Error(&ErrorReport{
-		Conn:    c,
-		Message: m,
-		Error:   fmt.Errorf("unhandled message for index: %+v", cmd),
-	})
+	return nil, fmt.Errorf("unhandled message for index: %+v", cmd)
 }
 
-func (mux *ServeMux) serve(cmd string, c Conn, m *Message) {
+func (mux *ServeMux) handlerName(cmd string) (Handler, error) {
 	entry, ok := mux.m[cmd]
 	if ok {
-		entry.h.ServeDIAM(c, m)
-		return
+		return entry.h, nil
 	}
 	// Try catch-all.
 	entry, ok = mux.idxMap[ALL_CMD_INDEX]
 	if ok {
-		entry.h.ServeDIAM(c, m)
-		return
+		return entry.h, nil
 	}
-	mux.Error(&ErrorReport{
-		Conn:    c,
-		Message: m,
-		Error:   fmt.Errorf("unhandled message for '%s'", cmd),
-	})
+	return nil, fmt.Errorf("unhandled message for '%s'", cmd)
 }
 
 // Handle registers the handler for the given code.
